@@ -179,7 +179,8 @@ def get_binary(job):
     h = job["h"]
     hs = specs.HARNESS[h]
     fuzz = job["kind"] == "fuzz"
-    flavor = job.get("flavor", "fuzz" if fuzz else "asan")
+    # VERIF_FLAVOR (exploration aid, not used by the registered commands): build flavour for the jobs that do not name one
+    flavor = job.get("flavor", "fuzz" if fuzz else os.environ.get("VERIF_FLAVOR", "asan"))
     return build.binary(h + ("-fuzz" if fuzz else "") + "-" + flavor, hs["src"], flavor=flavor, fuzz=fuzz,
                         wraps=hs.get("wraps", True), extra_libs=hs.get("libs", ()))
 
@@ -275,14 +276,12 @@ def _run_property(pid, sp, tier, seed, my_findings, tmpdir, t0):
                     regress.append((fn, h, mode))
     regress_fails = []
     if regress:
-        envr = san_env(tmpdir, quiet)
-        envr["TMPDIR"] = tmpdir
         for fn, h, mode in regress:
-            rb = get_binary(dict(h=h, kind="pbt"))
-            for job in sp["jobs"]:
-                if job["h"] == h:
-                    for k, v in job.get("env", {}).items():
-                        envr[k] = str(tierval(v, tier))
+            envr = san_env(tmpdir, quiet)
+            envr["TMPDIR"] = tmpdir
+            flavor, menv = replay_meta(os.path.join(rgdir, fn), pid, h, tier)
+            rb = get_binary(dict(h=h, kind="pbt", flavor=flavor))
+            envr.update(menv)
             rc, out = replay_once(rb, mode, os.path.join(rgdir, fn), envr)
             if rc not in (0, 2):
                 res_line = [l for l in out.splitlines() if l.startswith("RESULT: FAIL")]
@@ -404,6 +403,11 @@ def _run_property(pid, sp, tier, seed, my_findings, tmpdir, t0):
             nm = "%s-%s-%s%s" % (ji["job"]["h"], ji["mode"], hashlib.sha1(f["sig"].encode()).hexdigest()[:8], ext)
             dst = os.path.join(rdir, nm)
             shutil.copyfile(f["file"], dst)
+            if kind != "enum":
+                # how to re-run it: build flavour and the job's environment
+                with open(dst + ".meta.json", "w") as mf:
+                    json.dump(dict(flavor="asan" if kind == "fuzz" else ji["job"].get("flavor", "asan"),
+                                   env={k: str(tierval(v, tier)) for k, v in ji["job"].get("env", {}).items()}), mf)
         seen_sig.add(f["sig"])
         f["replay"] = dst
         f["reproduced"] = reps
@@ -466,6 +470,22 @@ def _run_property(pid, sp, tier, seed, my_findings, tmpdir, t0):
     return 0
 
 
+def replay_meta(path, pid, h, tier="quick"):
+    """(flavor, env) with which a saved input has to be re-run: from its .meta.json sidecar; without one,
+    the default build and the environment of the property's first default-flavour job of that harness"""
+    mp = path + ".meta.json"
+    if os.path.exists(mp):
+        try:
+            m = json.load(open(mp))
+            return m.get("flavor", "asan"), dict(m.get("env", {}))
+        except ValueError:
+            pass
+    for job in specs.PROPS.get(pid, {}).get("jobs", []):
+        if job["h"] == h and job.get("flavor", "asan") == "asan" and job["kind"] != "fuzz":
+            return "asan", {k: str(tierval(v, tier)) for k, v in job.get("env", {}).items()}
+    return "asan", {}
+
+
 def replay_cmd(argv):
     path = None
     pid = None
@@ -487,17 +507,15 @@ def replay_cmd(argv):
     h, mode = parts[0], parts[1]
     if pid is None:
         pid = mode
-    binpath = get_binary(dict(h=h, kind="pbt"))
+    flavor, menv = replay_meta(path, pid, h)
+    binpath = get_binary(dict(h=h, kind="pbt", flavor=flavor))
     tmpdir = tempfile.mkdtemp(prefix="vf-replay-", dir="/dev/shm" if os.path.isdir("/dev/shm") else None)
     try:
         env = san_env(tmpdir, False)
         env["ASAN_OPTIONS"] = env["ASAN_OPTIONS"].replace("log_path=" + os.path.join(tmpdir, "san"), "log_path=stderr")
         env["UBSAN_OPTIONS"] = env["UBSAN_OPTIONS"].replace("log_path=" + os.path.join(tmpdir, "san"), "log_path=stderr")
         env["TMPDIR"] = tmpdir
-        for job in specs.PROPS.get(pid, {}).get("jobs", []):
-            if job["h"] == h:
-                for k, v in job.get("env", {}).items():
-                    env[k] = str(tierval(v, "quick"))
+        env.update(menv)
         r = subprocess.run([binpath, "replay", "--mode", mode, path, "-v"], env=env)
         return 1 if r.returncode not in (0,) else 0
     finally:
